@@ -7,7 +7,7 @@ open Lean Bermuda
 Line-protocol driver of C02.  One request = one *family* of triangles over a pool of cells:
 
   {"op":"family","pool":[cell..],"tris":[[poolIdx..]..],"pairs":[[i,j]..] | "all",
-   "impl":{"eq":[b|null..],"hashEq":[..],"le":[..],"disj":[..],"inter":[[poolIdx..]|null..],"diff":[..]},
+   "impl":{"eq":[b|null..],"hashEq":[..],"le":[..],"disj":[..],"inter":[[poolIdx..]|null..],"diff":[..],"union":[..],"xor":[..]},
    "mems":[[poolIdx,triIdx]..],"implMem":[b|null..],
    "cellPairs":[[poolIdx,poolIdx]..],"implCellEq":[..],"implCellHashEq":[..],
    "metas":[meta..],"metaPairs":[[i,j]..],"implMetaEq":[..],"implMetaHashEq":[..]}
@@ -84,6 +84,8 @@ def handle (j : Json) : Except String Json := do
   let iDisj ← optBoolArr impl "disj"
   let iInter ← optIdxLists impl "inter"
   let iDiff ← optIdxLists impl "diff"
+  let iUnion ← optIdxLists impl "union"
+  let iXor ← optIdxLists impl "xor"
   let n := pairs.size
   let pa (i : Nat) : List Cell := tri pairs[i]!.1
   let pb (i : Nat) : List Cell := tri pairs[i]!.2
@@ -96,6 +98,9 @@ def handle (j : Json) : Except String Json := do
   let wantSets := iInter.size > 0 || iDiff.size > 0
   let mInter := if wantSets then pairs.map fun (x, y) => cellsRes pool (Triangle.inter (tri x) (tri y)) else #[]
   let mDiff := if wantSets then pairs.map fun (x, y) => cellsRes pool (Triangle.diff (tri x) (tri y)) else #[]
+  let wantU := iUnion.size > 0 || iXor.size > 0
+  let mUnion := if wantU then pairs.map fun (x, y) => cellsRes pool (Triangle.union (tri x) (tri y)) else #[]
+  let mXor := if wantU then pairs.map fun (x, y) => cellsRes pool (Triangle.symdiff (tri x) (tri y)) else #[]
   -- membership
   let mems ← match j.getObjVal? "mems" with
     | .ok v => natPairs v
@@ -125,7 +130,8 @@ def handle (j : Json) : Except String Json := do
   let wf := pool.all Spec.wfCell
   let model := Json.mkObj [
     ("eq", bools mEq), ("keyEq", optBools mKey), ("le", bools mLe), ("disj", bools mDisj),
-    ("inter", Json.arr mInter), ("diff", Json.arr mDiff), ("mem", bools mMem),
+    ("inter", Json.arr mInter), ("diff", Json.arr mDiff), ("union", Json.arr mUnion),
+    ("xor", Json.arr mXor), ("mem", bools mMem),
     ("cellEq", bools mCEq), ("cellRaises", bools mCRaises), ("cellKeyEq", optBools mCKey),
     ("metaEq", bools mMEq), ("metaKeyEq", bools mMKey)]
   let spec := Json.mkObj [
@@ -135,6 +141,8 @@ def handle (j : Json) : Except String Json := do
     ("disj", verdicts n iDisj fun i b => Spec.disjClause (pa i) (pb i) b),
     ("inter", verdicts n iInter fun i out => Spec.interClause (pa i) (pb i) (out.map get)),
     ("diff", verdicts n iDiff fun i out => Spec.diffClause (pa i) (pb i) (out.map get)),
+    ("union", verdicts n iUnion fun i out => Spec.unionClause (pa i) (pb i) (out.map get)),
+    ("xor", verdicts n iXor fun i out => Spec.xorClause (pa i) (pb i) (out.map get)),
     ("mem", verdicts mems.size iMem fun i b => Spec.memClause (get mems[i]!.1) (tri mems[i]!.2) b),
     ("cellEq", verdicts cps.size iCEq fun i b => Spec.cellEqClause (get cps[i]!.1) (get cps[i]!.2) b),
     ("cellHash", verdicts cps.size iCHash fun i b => Spec.cellHashClause (get cps[i]!.1) (get cps[i]!.2) b),
